@@ -78,8 +78,17 @@ pub fn conn_config(cap: u32, max_payload: u32, budget: u64) -> narwhal_common::c
 
 /// runs one segmentation against the real connection loop; returns the canonical event list
 pub async fn run_impl(cap: u32, max_payload: u32, budget: u64, chunks: &[Vec<u8>]) -> String {
+  run_impl_ending(cap, max_payload, budget, chunks, false).await
+}
+
+/// `stall`: after the last segment the peer goes silent and keeps the socket open (instead of closing it)
+pub async fn run_impl_ending(cap: u32, max_payload: u32, budget: u64, chunks: &[Vec<u8>], stall: bool) -> String {
   let log: Log = Arc::new(Mutex::new(Vec::new()));
-  let mng: ConnManager<C2sService> = ConnManager::new(conn_config(cap, max_payload, budget));
+  let mut cc = conn_config(cap, max_payload, budget);
+  if stall {
+    cc.payload_read_timeout = Duration::from_secs(5);
+  }
+  let mng: ConnManager<C2sService> = ConnManager::new(cc);
   let (mut a, b) = tokio::io::duplex(1 << 22);
   let txslot: Arc<Mutex<Option<ConnTx>>> = Arc::new(Mutex::new(None));
   let f = RecorderFactory { log: log.clone(), tx: txslot.clone() };
@@ -102,16 +111,29 @@ pub async fn run_impl(cap: u32, max_payload: u32, budget: u64, chunks: &[Vec<u8>
     tokio::time::sleep(Duration::from_millis(1)).await;
   }
   let _ = closed_early;
-  let _ = a.shutdown().await;
+  if stall {
+    // silence for longer than payload_read_timeout (and far shorter than every other deadline)
+    tokio::time::sleep(Duration::from_secs(7)).await;
+  } else {
+    let _ = a.shutdown().await;
+  }
   tokio::time::sleep(Duration::from_millis(5)).await;
   // what the server said before closing
   let mut out = Vec::new();
   let mut buf = [0u8; 4096];
+  let mut still_open = false;
   loop {
     match tokio::time::timeout(Duration::from_millis(50), a.read(&mut buf)).await {
-      Ok(Ok(0)) | Ok(Err(_)) | Err(_) => break,
+      Ok(Ok(0)) | Ok(Err(_)) => break,
+      Err(_) => {
+        still_open = true;
+        break;
+      },
       Ok(Ok(n)) => out.extend_from_slice(&buf[..n]),
     }
+  }
+  if stall && still_open {
+    drop(a);
   }
   let panicked = match tokio::time::timeout(Duration::from_millis(50), task).await {
     Ok(Err(e)) => e.is_panic(),
@@ -122,6 +144,10 @@ pub async fn run_impl(cap: u32, max_payload: u32, budget: u64, chunks: &[Vec<u8>
   let mut evs: Vec<String> = log.lock().unwrap().clone();
   let end = if panicked {
     "E:PANIC".to_string()
+  } else if text.contains("payload read timeout") {
+    "E:paytimeout".into()
+  } else if stall && still_open && text.is_empty() {
+    "E:waiting".into()
   } else if text.contains("max message size exceeded") {
     "E:toolong".into()
   } else if text.contains("payload too large") {
@@ -217,6 +243,51 @@ pub fn gen_stream(rng: &mut Rng, cap: u32, max_payload: u32) -> Vec<u8> {
   s
 }
 
+/// where the peer goes silent: just before the terminator of a payload (2/5), inside a payload body (1/5), anywhere (2/5)
+pub fn stall_cut(rng: &mut Rng, stream: &[u8]) -> usize {
+  // (start of body, announced length) of every well-formed BROADCAST header in the stream, found by scanning the way the
+  // generator wrote it
+  let mut bodies: Vec<(usize, usize)> = Vec::new();
+  let mut i = 0usize;
+  while i < stream.len() {
+    let Some(nl) = stream[i..].iter().position(|b| *b == b'\n') else { break };
+    let line = String::from_utf8_lossy(&stream[i..i + nl]).to_string();
+    i += nl + 1;
+    if let Some(l) = line.strip_prefix("BROADCAST ").and_then(|r| r.rsplit("length=").next().map(|x| x.to_string())) {
+      if let Ok(len) = l.trim().parse::<usize>() {
+        bodies.push((i, len));
+        i += len + 1;
+      }
+    }
+  }
+  let choice = rng.below(5);
+  if !bodies.is_empty() && choice < 3 {
+    let (start, len) = bodies[rng.below(bodies.len() as u64) as usize];
+    let at = if choice < 2 { start + len } else { start + rng.below(len as u64 + 1) as usize };
+    return at.min(stream.len());
+  }
+  rng.below(stream.len() as u64 + 1) as usize
+}
+
+/// do the bytes end inside a payload announced by a BROADCAST header (scanning the way the generator wrote the stream)?
+pub fn ends_inside_payload(part: &[u8]) -> bool {
+  let mut i = 0usize;
+  while i < part.len() {
+    let Some(nl) = part[i..].iter().position(|b| *b == b'\n') else { return false };
+    let line = String::from_utf8_lossy(&part[i..i + nl]).to_string();
+    i += nl + 1;
+    if line.starts_with("BROADCAST ") {
+      let Some(l) = line.rsplit("length=").next() else { return false };
+      let Ok(len) = l.trim().parse::<usize>() else { return false };
+      if part.len() < i + len + 1 {
+        return true;
+      }
+      i += len + 1;
+    }
+  }
+  false
+}
+
 pub fn segmentations(rng: &mut Rng, stream: &[u8], k: usize) -> Vec<Vec<Vec<u8>>> {
   let mut v = Vec::new();
   if stream.is_empty() {
@@ -269,6 +340,43 @@ pub async fn run_suite(seed: u64, cases: usize, exhaustive_cuts: bool) -> Out {
     if exhaustive_cuts && stream.len() <= 80 {
       for c in 1..stream.len() {
         segs.push(vec![stream[..c].to_vec(), stream[c..].to_vec()]);
+      }
+    }
+    // the same stream cut short where the peer goes silent: before a payload's terminator, inside a body, or anywhere
+    {
+      let cut = stall_cut(&mut rng, &stream);
+      let part = &stream[..cut];
+      let mut ssegs = segmentations(&mut rng, part, 1);
+      ssegs.truncate(3);
+      let mut sfirst: Option<String> = None;
+      for seg in ssegs {
+        let obs = run_impl_ending(cap, max_payload, budget, &seg, true).await;
+        runs += 1;
+        let line: Vec<String> = seg.iter().map(|c| xhex(c)).collect();
+        let _ = writeln!(t, "stall {}", if line.is_empty() { "-".to_string() } else { line.join(" ") });
+        let _ = writeln!(t, "impl {obs}");
+        // the statement itself ("never a hang"): the connection is still open and silent although the bytes received end
+        // inside an announced payload (body or terminator outstanding)
+        if obs.ends_with("E:waiting") && ends_inside_payload(part) {
+          seg_dependent.push(format!(
+            "C10: case {case}: hang: the peer sent a header announcing a payload, {} and went silent; {}s later (payload_read_timeout = 5s) the connection is still open and nothing was answered (stream {})",
+            "delivered part of it (the body, or the body without its terminating newline)",
+            7,
+            xhex(part)
+          ));
+        }
+        match &sfirst {
+          None => sfirst = Some(obs),
+          Some(f) => {
+            if *f != obs {
+              seg_dependent.push(format!(
+                "C10: case {case}: the same {}-byte stream followed by silence was acted on differently under two segmentations: [{f}] vs [{obs}] (stream {})",
+                part.len(),
+                xhex(part)
+              ));
+            }
+          },
+        }
       }
     }
     let mut first: Option<String> = None;
